@@ -1114,6 +1114,7 @@ impl<'a> World<'a> {
         } else {
             BTreeSet::new()
         };
+        let mut tolerated_listed = false;
         for m in aggregate_mismatches(&p1, self.cfg.max_ancestors as u64) {
             let tainted = match m.side {
                 Side::Anc => self.taint_anc.contains(&m.id),
@@ -1139,9 +1140,17 @@ impl<'a> World<'a> {
                     Side::Limit => self.taint_limit.insert(m.id),
                     Side::Desc => self.taint_desc.insert(m.id),
                 };
+                // the pool's counters are stale from here on and the staleness spreads to related
+                // entries through the saturating add / sub of later operations: what a later dump
+                // shows cannot be attributed any more, so the history ends here (counted)
+                tolerated_listed = true;
                 continue;
             }
             return Err(Violation::new(sig, detail));
+        }
+        if tolerated_listed {
+            st.label("history:ended-after-a-listed-aggregate-finding");
+            self.abort.set(true);
         }
         // non-trivial rule: an entry left the pool without being committed while one of its
         // ancestors (closure of the links before the op) is still pooled
